@@ -22,10 +22,22 @@ func NewCtx(repo, verif, tier string, r *core.Report) *Ctx {
 	return &Ctx{Repo: repo, Verif: verif, Tier: tier, R: r, progs: map[string]*core.Program{}}
 }
 
+// shared across the properties of one process (-prop all): programs without overlay
+var sharedProgs = map[string]*core.Program{}
+
 // Prog loads (once) a configuration; a load failure is fatal for the check.
 func (c *Ctx) Prog(cfg core.Config) *core.Program {
 	if p, ok := c.progs[cfg.Name]; ok {
 		return p
+	}
+	if c.Overlay == nil {
+		if sp, ok := sharedProgs[c.Repo+"|"+cfg.Name]; ok {
+			c.progs[cfg.Name] = sp
+			c.R.Configs = append(c.R.Configs, cfg.Name)
+			c.R.Count("packages["+cfg.Name+"]", len(sp.Pkgs))
+			c.R.Count("functions["+cfg.Name+"]", len(sp.Funcs()))
+			return sp
+		}
 	}
 	p, err := core.Load(c.Repo, cfg, c.Overlay)
 	if err != nil {
@@ -34,6 +46,9 @@ func (c *Ctx) Prog(cfg core.Config) *core.Program {
 		return nil
 	}
 	c.progs[cfg.Name] = p
+	if c.Overlay == nil {
+		sharedProgs[c.Repo+"|"+cfg.Name] = p
+	}
 	c.R.Configs = append(c.R.Configs, cfg.Name)
 	c.R.Count("packages["+cfg.Name+"]", len(p.Pkgs))
 	c.R.Count("functions["+cfg.Name+"]", len(p.Funcs()))
